@@ -24,6 +24,29 @@ ENOENT, EIO, EACCES, ENOSPC, EINVAL, EISDIR, EBADF = 2, 5, 13, 28, 22, 21, 9
 # scenario families whose offsets are not "append at the end": the token-passing fallback ignores offsets (F-C12e)
 MPI_UNDEFINED = -32766      # Open MPI's value
 OFFSET_FAMILIES = ("header-then-blocks", "offsets-gaps", "offsets-reverse")
+# offsets that do not fit into 32 bits (sparse file; judged by oracle_big, never materialised): below 2^31, in [2^31, 2^32)
+# (negative as a 32-bit int), above 2^32 (wrap around to a small offset as a 32-bit int)
+BIG_FAMILY = "big-offset"
+BIG_OFFSETS = (48, (1 << 31) - 16, (1 << 31) + 5, (1 << 32) + 48, 3 * (1 << 32) + 4096)
+
+
+def sparse_supported(ctx):
+    """does the scratch file system keep a file with one byte behind a 12 GiB hole small?  -> (bool, text)"""
+    path = os.path.join(ctx.scratch, "c12_sparse_probe.%d" % os.getpid())
+    try:
+        with open(path, "wb") as f:
+            f.seek(BIG_OFFSETS[-1])
+            f.write(b"x")
+        st = os.stat(path)
+        ok = st.st_size == BIG_OFFSETS[-1] + 1 and st.st_blocks * 512 < (1 << 20)
+        return ok, "probe file of apparent size %d occupies %d blocks of 512 bytes" % (st.st_size, st.st_blocks)
+    except OSError as e:
+        return False, "probe failed: %s" % e
+    finally:
+        try:
+            os.remove(path)
+        except OSError:
+            pass
 
 
 def data_byte(dseed, opid, rank, k):
@@ -283,6 +306,39 @@ def gen_scenarios(ctx):
     # the same through the P successive calls of configuration A (collective operation of P logical ranks)
     for P in (2, 3):
         S.append(Scen(P, [("o", 1), ("W", 1, 1, tuple((3 * q, 3) for q in range(P))), ("c",)], faults=[(P - 1, FWRITE, 0, ENOSPC, 2)], family="at-fault", **rs()))
+    # (g) offsets beyond 2^31 and 2^32 in a sparse file (explicit-offset calls of rank 0 in A and C; in A also the *_at_all
+    #     forms, which are P successive explicit-offset calls); the saved stream position beyond 2^32 (append mode)
+    ok, why = sparse_supported(ctx)
+    ctx.notes["big_offset_family"] = ("exercised: " if ok else "SKIPPED, the scratch file system does not support sparse files: ") + why
+    if ok:
+        for rep in range(3 if quick else 12):
+            tsize = (1, 4, 8)[rep % 3]
+            offs = list(BIG_OFFSETS)
+            rng.shuffle(offs)
+            cnts_b = [rng.choice([1, 2, 3]) for _ in offs]
+            ops = [("o", 1)] + [("w", tsize, i + 1, off, c) for i, (off, c) in enumerate(zip(offs, cnts_b))] + [("c",), ("o", 0)]
+            rd = [(off, c) for off, c in zip(offs, cnts_b)]
+            rng.shuffle(rd)
+            for off, c in rd:
+                ops.append(("r", tsize, off, c))
+            # a hole (zeros), the last element cut by the end of file, and a read behind the end of file
+            end = max(off + c * tsize for off, c in zip(offs, cnts_b))
+            ops += [("r", tsize, (1 << 32) - 8, 2), ("r", tsize, end - tsize, 2), ("r", tsize, end + (1 << 32), 1), ("c",)]
+            S.append(Scen(rng.choice([1, 2]), ops, family=BIG_FAMILY, cfgs="AC", **rs()))
+        # append mode behind 12 GiB: ftell returns a position above 2^32, which the restoring fseek must get back unchanged
+        for tsize in ((4,) if quick else (1, 4, 8)):
+            top = BIG_OFFSETS[-1]
+            ops = [("o", 1), ("w", tsize, 1, top, 2), ("c",), ("o", 2), ("w", tsize, 2, top + 2 * tsize, 3), ("w", tsize, 3, top + 5 * tsize, 1), ("c",),
+                   ("o", 0), ("r", tsize, top, 6), ("r", tsize, top + 2 * tsize, 3), ("c",)]
+            S.append(Scen(1, ops, family=BIG_FAMILY, cfgs="AC", **rs()))
+        # configuration A only: the collective forms, one offset per logical rank
+        for P in ((2, 5) if quick else (1, 2, 3, 5)):
+            tsize = rng.choice([1, 4, 8])
+            offs = [BIG_OFFSETS[(q + P) % len(BIG_OFFSETS)] for q in range(P)]
+            cnts_b = [rng.choice([1, 2, 3]) for _ in range(P)]
+            ops = [("o", 1), ("W", tsize, 1, tuple(zip(offs, cnts_b))), ("c",), ("o", 0), ("R", tsize, tuple(zip(offs, cnts_b))),
+                   ("R", tsize, tuple(reversed(list(zip(offs, cnts_b))))), ("c",)]
+            S.append(Scen(P, ops, family=BIG_FAMILY, cfgs="A", **rs()))
     # (f) random sequences with random faults
     for rep in range(60 if quick else 1500):
         P = rng.choice(Ps)
@@ -333,7 +389,7 @@ def parse_outs(run, P, nops):
     for o in run.outs:
         w = o.split(None, 2)
         if w[0] == "F":
-            ftxt = w[1]
+            ftxt = w[1] if w[1] != "big" else o.split(None, 1)[1]        # "big <size> <blocks> <off>:<hex> ..."
         elif w[0] == "S":
             stdio = tuple(int(x) for x in o.split()[1:4])
         elif w[0] == "E":
@@ -609,6 +665,118 @@ def oracle(ctx, sc, cfg, res, ftxt, stdio, mem, failures, rep):
     return V
 
 
+class SparseRef:
+    """reference file of the big-offset family: bytes by position, holes read as zero"""
+    def __init__(self):
+        self.b, self.size = {}, 0
+
+    def put(self, off, data):
+        for k, v in enumerate(data):
+            self.b[off + k] = v
+        if data:
+            self.size = max(self.size, off + len(data))
+
+    def get(self, off, n):
+        return bytes(self.b.get(p, 0) for p in range(off, max(off, min(off + n, self.size))))
+
+
+def hexint(t):
+    return -int(t[1:], 16) if t.startswith("-") else int(t, 16)
+
+
+def oracle_big(sc, cfg, res, ftxt, stdio, mem, streams):
+    """family big-offset (fault-free, explicit-offset semantics, no model prediction): every call SUCCESS, ocount, data read =
+    data written at that very offset, fstat size = max offset + length, windows of the file (pread), and from the stdio log:
+    every fseek of an explicit-offset call was made with exactly the requested offset / the position ftell had returned"""
+    V = []
+    key = lambda what: "big-offset:%s:%s" % (cfg, what)
+    ref = SparseRef()
+    mode = None
+    wins = []
+    for i, o in enumerate(sc.ops):
+        k = o[0]
+        if k in ("o", "c"):
+            r = res[0][i]
+            if r is None or r.cls != "SUCCESS":
+                V.append((key(k), "operation %d (%s): class %s" % (i, k, None if r is None else r.cls)))
+                return V
+            if k == "o":
+                mode = o[1]
+                if mode == 1:
+                    ref = SparseRef()
+            continue
+        tsize = o[1]
+        if k in ("w", "W"):
+            args = [(o[3], o[4])] if k == "w" else list(o[3])
+        else:
+            args = [(o[2], o[3])] if k == "r" else list(o[2])
+        for q, (off, cnt) in enumerate(args):
+            r = res[q][i]
+            what = "operation %d (%s) rank %d: %d elements of size %d at offset %d (0x%x)" % (i, k, q, cnt, tsize, off, off)
+            if r is None or r.cls is None:
+                V.append((key("no-result"), what + ": no result"))
+                return V
+            if k in ("w", "W"):
+                data = block(sc.dseed, o[2], q, cnt * tsize)
+                wins.append((off, len(data)))
+                if r.cls != "SUCCESS" or r.ocount != cnt:
+                    V.append((key("write"), what + ": class %s, ocount %d for a legal write" % (r.cls, r.ocount)))
+                ref.put(off, data)       # (append mode: the scenarios give the end of file as offset)
+            else:
+                avail = ref.get(off, cnt * tsize)
+                n = len(avail) // tsize
+                got = bytes.fromhex(r.hex)[:max(0, r.ocount) * tsize]
+                if r.cls != "SUCCESS":
+                    V.append((key("read"), what + ": class %s for a legal read" % r.cls))
+                elif r.ocount != n or got != avail[:n * tsize]:
+                    V.append((key("readback"), what + ": ocount %d data %s, written there: %s (%d whole elements)" % (r.ocount, got.hex(), avail.hex(), n)))
+                if r.flag:
+                    V.append((key("read-overrun"), what + ": bytes behind the read buffer were modified"))
+    # the file: never read as a whole
+    w = (ftxt or "").split()
+    if len(w) < 3 or w[0] != "big":
+        V.append((key("file-size"), "file afterwards is not large: %s; expected apparent size %d" % ((ftxt or "?")[:120], ref.size)))
+    else:
+        if int(w[1]) != ref.size:
+            V.append((key("file-size"), "fstat size %s, the largest offset + length written is %d" % (w[1], ref.size)))
+        if int(w[2]) * 512 > (1 << 22):
+            V.append((key("not-sparse"), "the file occupies %s blocks of 512 bytes" % w[2]))
+        for (off, n), t in zip(wins, w[3:]):
+            o_, h = t.split(":")
+            got = b"" if h == "-" else bytes.fromhex(h)
+            if int(o_) != off or got != ref.get(off, n):
+                V.append((key("file-window"), "the file holds %s at offset %d (0x%x), written there: %s" % (got.hex(), off, off, ref.get(off, n).hex())))
+                break
+    # the stdio log: ftell -> p; fseek (off); transfer; fseek (p) for every explicit-offset call (in C: of rank 0)
+    if streams is not None:
+        cur, per = None, {}
+        evs = streams[0]
+        for e in evs:
+            if e[0] == "op":
+                cur = (e[1], e[2] if len(e) > 2 else 0)
+            elif e[0] == "io" and cur is not None:
+                per.setdefault((cur[0], e[5] if len(e) > 5 else 0), []).append(e)
+        for i, o in enumerate(sc.ops):
+            if o[0] not in "wWrR":
+                continue
+            args = [(o[3], o[4])] if o[0] == "w" else list(o[3]) if o[0] == "W" else [(o[2], o[3])] if o[0] == "r" else list(o[2])
+            for q, (off, cnt) in enumerate(args):
+                if cnt == 0:
+                    continue
+                io = per.get((i, q), [])
+                tells = [e[3] for e in io if e[1] == FTELL]
+                seeks = [tuple(hexint(x) for x in e[2].split()[3].split(",")) for e in io if e[1] == FSEEK]
+                exp = [(off, 0), (tells[0] if tells else None, 0)]
+                if len(tells) != 1 or seeks != exp:
+                    V.append((key("fseek-args"), "operation %d (%s) rank %d at offset %d (0x%x): ftell returned %s, fseek was called with %s, expected %s"
+                              % (i, o[0], q, off, off, tells, seeks, exp)))
+    if mem not in (0, None):
+        V.append(("memory:%s" % cfg, "sc_memory_status changed by %s over the scenario" % mem))
+    if stdio is not None and stdio[2] != 0:
+        V.append(("stream-left-open:%s" % cfg, "%d FILE* still open after the scenario" % stdio[2]))
+    return V
+
+
 # ----------------------------------------------------------------------------------------------------------------
 def run(ctx):
     import genall
@@ -629,7 +797,6 @@ def run(ctx):
             scens = [Scen.from_json(rp["scenario"])] + scens[:5]
     ctx.log("%d scenarios" % len(scens))
     env = dict(os.environ, VERIF_SCRATCH=ctx.scratch, ASAN_OPTIONS="detect_leaks=0")
-    text = "".join(s.harness_line() + "\n" for s in scens)
     model_lines, model_index = [], []
     dist = {"P": {}, "family": {}, "adversary": {}, "faults": {}, "config": {"A": 0, "B": 0, "C": 0}}
     nviol = {}
@@ -643,17 +810,20 @@ def run(ctx):
 
     files = {}
     for cfg, exe in (("C", hsim), ("A", hser)):
+        sel = [si for si, sc in enumerate(scens) if cfg in sc.cfgs]          # (only the big-offset family restricts A / C)
+        text = "".join(scens[si].harness_line() + "\n" for si in sel)
         rc, lines, err = ctx.run_lines([exe], text, timeout=2400, env=env)
         runs = mpitrace.parse_runs(lines)
-        if rc != 0 or len(runs) != len(scens):
+        if rc != 0 or len(runs) != len(sel):
             k = len(runs) - 1
-            bad = scens[k] if 0 <= k < len(scens) else scens[0]
-            report(bad, cfg, "harness-crash:%s" % cfg, "harness ended with status %s after %d of %d scenarios: %s" % (rc, len(runs), len(scens), err[-1500:]),
+            bad = scens[sel[k]] if 0 <= k < len(sel) else scens[0]
+            report(bad, cfg, "harness-crash:%s" % cfg, "harness ended with status %s after %d of %d scenarios: %s" % (rc, len(runs), len(sel), err[-1500:]),
                    dict(stderr=err[-4000:]))
-        for si, sc in enumerate(scens):
-            if si >= len(runs):
+        for ri, si in enumerate(sel):
+            sc = scens[si]
+            if ri >= len(runs):
                 break
-            r = runs[si]
+            r = runs[ri]
             P, nops = sc.P, len(sc.ops)
             dist["config"][cfg] += 1
             res, ftxt, stdio, sev = parse_outs(r, P, nops)
@@ -683,10 +853,13 @@ def run(ctx):
                     elif e[0] == "io" and failed_call(e[1], e[3], e[4]):
                         failures.setdefault(cur, []).append((e[5] if cfg == "A" else q, FN_NAMES[e[1]]))
             aborted = (r.rc == 4)
-            # ---- model: prediction of the global model
-            model_lines.append("G %s %s %s %s %s" % (cfg, hx(P), sc.model_node(), sc.model_plan(), sc.model_ops()))
-            model_index.append(("G", cfg, si, dict(res=res, ftxt=ftxt, stdio=stdio, mem=r.mem, aborted=aborted,
-                                                   nfail=sum(len(v) for v in failures.values()))))
+            big = sc.family == BIG_FAMILY
+            # ---- model: prediction of the global model (not for the big-offset family: the model's file is a list of bytes,
+            #      12 GiB of zeros cannot be materialised; the theorems hold for every offset, the tie is co-simulation + oracle)
+            if not big:
+                model_lines.append("G %s %s %s %s %s" % (cfg, hx(P), sc.model_node(), sc.model_plan(), sc.model_ops()))
+                model_index.append(("G", cfg, si, dict(res=res, ftxt=ftxt, stdio=stdio, mem=r.mem, aborted=aborted,
+                                                       nfail=sum(len(v) for v in failures.values()))))
             # ---- model: co-simulation of every rank
             for q, evs in enumerate(streams):
                 seq = [e[2] if e[0] == "io" else e[1] for e in evs if e[0] in ("io", "mpi")]
@@ -713,6 +886,14 @@ def run(ctx):
                 # SC_ABORT is a loud, collective end: the property makes no claim; it must have a cause
                 if not any(failures.values()):
                     report(sc, cfg, "abort-without-cause:%s" % cfg, "the run aborted although no stdio call failed: %s" % r.report[:300], rep)
+                continue
+            if big:
+                if any(failures.values()):
+                    report(sc, cfg, "big-offset:%s:stdio-failure" % cfg, "stdio calls failed in a fault-free scenario: %s" % failures, rep)
+                for key, what in oracle_big(sc, cfg, res, ftxt, stdio, r.mem, streams):
+                    report(sc, cfg, key, what, rep)
+                w = (ftxt or "").split()
+                files[(si, cfg)] = " ".join(w[:2] + w[3:])[:4000]           # without the block count
                 continue
             for key, what in oracle(ctx, sc, cfg, res, ftxt, stdio, r.mem, failures, rep):
                 report(sc, cfg, key, what, rep)
@@ -771,7 +952,7 @@ def run(ctx):
     ctx.cov["rule"] = ("scenarios = operation sequences (open / collective write / collective read / explicit-offset read+write of rank 0 / close) "
                        "on one file, run by the real code in configuration C (MPI without MPI I/O on the simulated MPI, P=%s, all 8 scheduler adversaries, "
                        "random seeds) and configuration A (no MPI; the P logical ranks one after the other), fault-free ones also in configuration B "
-                       "(MPI I/O, Open MPI); block lengths 0..5 elements of size 1/4/8, offsets consecutive / with gaps / reversed / beyond EOF, "
+                       "(MPI I/O, Open MPI); block lengths 0..5 elements of size 1/4/8, offsets consecutive / with gaps / reversed / beyond EOF / beyond 2^31 and 2^32 in a sparse file (family big-offset), "
                        "modes read / create / append, missing file, missing directory, directory, a failing stdio call (fopen, fwrite, fread, fseek, "
                        "ftell, fflush, fclose; errno sweep 1..134) at each rank and step; distinct = distinct (P, data, path, faults, operations); "
                        "non-trivial = more than one operation" % ("1..6" if ctx.quick else "1..8,12"))
